@@ -32,7 +32,9 @@ RULE = ("random digraphs (1..9 nodes, thorough ..12; duplicate edges, self loops
         "weights and planted negative cycles for bellman_ford/floyd_warshall; int/str/tuple/mixed labels; goal as value, "
         "predicate, missing value, None; max_iter / max_cost cut-offs; five heuristic families, weights 1, 3/2, 2) on which "
         "all applicable solvers are run, and grids up to 7x7 (thorough 9x9) with random obstacles, terrain costs, 4/8 "
-        "neighbours and every heuristic name; non-trivial = the mirror improved an already known distance at least once "
+        "neighbours and every heuristic name, plus 12 (thorough 36) large structured grids of 40..60 per side (walls with two "
+        "gaps at opposite ends and a start chosen so that the two detours nearly tie, serpentine corridors, open fields, "
+        "diagonal barriers, terrain); non-trivial = the mirror improved an already known distance at least once "
         "(decrease-key / second relaxation); distinct by canonical input")
 
 SQRT_IS_POW = all(float(k) ** 0.5 == math.sqrt(k) for k in range(0, 700))
@@ -139,12 +141,19 @@ def gen_graph(rng, big: bool):
         elif hk == "bad":
             hv = [rng.randint(0, 12 * scale) for _ in range(n)]
     aw = [1, 1] if rng.random() < 0.85 else rng.choice([[3, 2], [2, 1], [1, 2], [0, 1]])
-    return {"kind": "graph", "n": n, "edges": edges, "scale": scale,
-            "labels": rng.choice(["int", "int", "str", "tuple", "mixed", "shift"]),
+    oddstyle = f"odd{rng.choice([1, 2])}@{rng.randrange(17)}"
+    return _resolve_labels({"kind": "graph", "n": n, "edges": edges, "scale": scale,
+            "labels": rng.choice(["int", "int", "str", "tuple", "mixed", "shift", "odd", "odd", "odd"]),
             "s": s, "goal": goal, "max_iter": max_iter, "max_cost": max_cost,
             "h": {"kind": hk, "vals": hv}, "aw": aw,
             "bf_target": rng.choice([None, rng.randrange(n)]),
-            "fw_directed": rng.random() < 0.7}
+            "fw_directed": rng.random() < 0.7}, oddstyle)
+
+
+def _resolve_labels(case, oddstyle):
+    if case["labels"] == "odd":
+        case["labels"] = oddstyle
+    return case
 
 
 HEURS = ["auto", "manhattan", "octile", "euclidean", "chebyshev"]
@@ -186,6 +195,88 @@ def gen_grid(rng, big: bool):
             "max_iter": None if rng.random() < 0.85 else rng.randint(0, rows * cols + 2)}
 
 
+def _octile(a, b):
+    dr, dc = abs(a[0] - b[0]), abs(a[1] - b[1])
+    return max(dr, dc) + (math.sqrt(2) - 1) * min(dr, dc)
+
+
+def _near_tie(rng, cands, via1, via2, goal):
+    """generator-side helper: a start among `cands` for which the routes through `via1` and `via2` nearly tie"""
+    scored = []
+    for st in cands:
+        d = abs((_octile(st, via1) + _octile(via1, goal)) - (_octile(st, via2) + _octile(via2, goal)))
+        if d > 1e-9:
+            scored.append((d, st))
+    scored.sort()
+    return list(rng.choice(scored[:6])[1]) if scored else list(cands[0])
+
+
+def gen_big_grid(rng, idx):
+    """LARGE structured grids (40..60 per side): long detours whose lengths nearly tie, so that a slightly
+    inadmissible heuristic or a wrong tie-break yields a cost measurably above the exact Z[sqrt2] optimum."""
+    R, C = rng.randint(40, 60), rng.randint(40, 60)
+    g = [[0] * C for _ in range(R)]
+    fam = idx % 6
+    start, goal = [0, 0], [R - 1, C - 1]
+    if fam == 0:  # vertical wall, gaps at the top and bottom rows
+        c = rng.choice([2, 3, C // 3, C // 2, C - 4])
+        for r in range(1, R - 1):
+            g[r][c] = 1
+        goal = rng.choice([[R - 1, C - 1], [0, C - 1], [R // 2, C - 1], [R - 1, (c + C) // 2]])
+        start = _near_tie(rng, [(r, 0) for r in range(R)], (0, c), (R - 1, c), goal)
+    elif fam == 1:  # horizontal wall, gaps at the left and right columns
+        r = rng.choice([2, 3, R // 3, R // 2, R - 4])
+        for c in range(1, C - 1):
+            g[r][c] = 1
+        goal = rng.choice([[R - 1, C - 1], [R - 1, 0], [R - 1, C // 2], [(r + R) // 2, C - 1]])
+        start = _near_tie(rng, [(0, c) for c in range(C)], (r, 0), (r, C - 1), goal)
+    elif fam == 2:  # serpentine corridors
+        step = rng.choice([3, 4, 6])
+        for k, r in enumerate(range(step, R - 1, step)):
+            for c in range(C):
+                g[r][c] = 1
+            gap = 0 if k % 2 else C - 1
+            g[r][gap] = 0
+            if rng.random() < 0.5:
+                g[r][C // 2] = 0  # a second gap: two routes
+        start, goal = [0, rng.choice([0, C // 2, C - 1])], [R - 1, rng.choice([0, C // 2, C - 1])]
+    elif fam == 3:  # open field: corners, mid-edges, near-diagonal
+        start, goal = rng.choice([([0, 0], [R - 1, C - 1]), ([R // 2, 0], [R // 2 + 3, C - 1]), ([0, C // 2], [R - 1, C // 2 - 5]),
+                                  ([R - 1, 0], [0, C - 2]), ([3, 1], [R - 2, C - 4])])
+        for _ in range(rng.randint(0, 30)):
+            g[rng.randrange(R)][rng.randrange(C)] = 1
+        g[start[0]][start[1]] = g[goal[0]][goal[1]] = 0
+    elif fam == 4:  # two vertical walls with gaps at opposite ends
+        c1, c2 = C // 3, 2 * C // 3
+        for r in range(R):
+            g[r][c1] = 1
+            g[r][c2] = 1
+        g[0][c1] = g[R - 1][c1] = 0
+        g[0][c2] = g[R - 1][c2] = 0
+        if rng.random() < 0.5:
+            g[R - 1][c2] = 1
+        start = _near_tie(rng, [(r, 0) for r in range(R)], (0, c1), (R - 1, c1), (R // 2, c1 + 2))
+        goal = [rng.choice([0, R // 2, R - 1]), C - 1]
+    else:  # a diagonal barrier with gaps at both ends, terrain on one side
+        for k in range(2, min(R, C) - 2):
+            g[k][min(C - 1, k)] = 1
+            if k + 1 < C:
+                g[k][k + 1] = 1
+        start, goal = [R - 1, 0], [0, C - 1]
+        if rng.random() < 0.5:
+            start, goal = [R // 2, 0], [R // 2, C - 1]
+    costs = None
+    if fam == 5 and rng.random() < 0.5:
+        for r in range(R):
+            for c in range(C):
+                if g[r][c] == 0 and c > r + 3 and rng.random() < 0.2:
+                    g[r][c] = 2
+        costs = {"2": [3, 2]}
+    return {"kind": "grid", "grid": g, "start": list(start), "goal": list(goal),
+            "directions": 8 if rng.random() < 0.8 else 4, "heuristic": rng.choice(HEURS), "blocked": 1, "costs": costs,
+            "weight": [1, 1], "max_iter": None, "big": fam}
+
+
 def edge_cases():
     g = {"kind": "graph", "n": 4, "edges": [[0, 1, 1], [0, 2, 6], [1, 3, 100], [2, 3, 1]], "scale": 1, "labels": "str",
          "s": 0, "goal": {"mode": "value", "set": [3]}, "max_iter": None, "max_cost": None,
@@ -212,7 +303,19 @@ def edge_cases():
 # implementation side (worker process)
 # ---------------------------------------------------------------------------
 
+# "Any node labels": hashable oddities, each pool free of ==-collisions (0 / False / 0.0, 1 / True, (0,) / (False,)).
+# `None` (and other falsy labels) must work as source, interior node or goal.
+ODD1 = [None, 0, "", (), frozenset(), -1, 0.5, -3, 1.5, "x", (None,), frozenset({1}), 7, -0.25, "None", (0, ""), 2 ** 70]
+ODD2 = [False, None, "", (), True, frozenset(), -2, 0.25, "0", (False,), 3, -1.5, "a", ((),), float("inf"), b"", -7]
+assert len(set(ODD1)) == len(ODD1) and len(set(ODD2)) == len(ODD2)
+
+
 def labels_of(style, n):
+    if style.startswith("odd"):
+        pool = ODD1 if style[3] == "1" else ODD2
+        rot = int(style.split("@")[1])
+        assert n <= len(pool)
+        return [pool[(i + rot) % len(pool)] for i in range(n)]
     if style == "str":
         return [f"n{i}" for i in range(n)]
     if style == "tuple":
@@ -273,7 +376,7 @@ def impl_graph(case):
     n, sc = case["n"], case["scale"]
     lab = labels_of(case["labels"], n)
     back = {l: i for i, l in enumerate(lab)}
-    fl = (lambda x: x) if sc == 1 and case["labels"] in ("int", "shift") else (lambda x: x / sc)
+    fl = (lambda x: x) if sc == 1 and (case["labels"] in ("int", "shift") or case["labels"].startswith("odd1")) else (lambda x: x / sc)
     wadj = {l: [] for l in lab}
     uadj = {l: [] for l in lab}
     for u, v, w in case["edges"]:
@@ -283,6 +386,9 @@ def impl_graph(case):
     gset = {lab[i] for i in case["goal"]["set"]}
     if gm == "value":
         goal = lab[case["goal"]["set"][0]]
+        if goal is None or callable(goal):
+            # the API reads a `None` goal as "explore everything": a node labelled None is named by a predicate
+            goal = (lambda g: (lambda x: x is g))(goal)
     elif gm == "pred":
         goal = lambda x: x in gset  # noqa: E731
     elif gm == "missing":
@@ -552,7 +658,7 @@ def judge_graph(ctx, case, out, reply, keys):
         ctx.count("cert_checked_model")
     ctx.count("goal:" + gm)
     ctx.count("weights:" + ("nonneg" if nonneg else "negative"))
-    ctx.count("labels:" + case["labels"])
+    ctx.count("labels:" + case["labels"].split("@")[0])
     if case["max_iter"] is not None:
         ctx.count("opt:max_iter")
     if case["max_cost"] is not None:
@@ -770,6 +876,8 @@ def judge_grid(ctx, case, out, reply):
     ncell = len(g) * (len(g[0]) if g else 0)
     d8, h = case["directions"] == 8, case["heuristic"]
     ctx.count(f"grid:dirs={case['directions']}:h={h}")
+    if "big" in case:
+        ctx.count(f"grid:big:family{case['big']}")
     cheap = case["costs"] is not None and any(Fraction(v[0], v[1]) < 1 for v in case["costs"].values())
     admissible = case["weight"] == [1, 1] and not cheap and not (d8 and h == "manhattan")
     if not admissible:
@@ -879,6 +987,12 @@ def run(ctx, budget):
     ng, nq = 10000 * budget, 4000 * budget
     cases += [gen_graph(ctx.rng, big and i % 3 == 0) for i in range(ng)]
     cases += [gen_grid(ctx.rng, big and i % 3 == 0) for i in range(nq)]
+    # a fixed small number of LARGE structured grids, spread evenly so that they land in different driver chunks
+    nbig = 12 if budget <= 1 else 36
+    bigs = [gen_big_grid(ctx.rng, i) for i in range(nbig)]
+    step = max(1, len(cases) // nbig)
+    for k, b in enumerate(bigs):
+        cases.insert(min(len(cases), k * (step + 1)), b)
     run_cases(ctx, cases)
     ctx.cov["sqrt_is_pow_on_grid_range"] = SQRT_IS_POW
     ctx.cov["missing_theorems"] = []
